@@ -1,5 +1,6 @@
 import ThriftVerif.Lib.Options
 import ThriftVerif.Lib.OptionsLemmas
+import ThriftVerif.Lib.OptionsCmdLemmas
 import ThriftVerif.Generated.C20
 /-
   C20 — every documented backend option switches exactly its own feature.
@@ -89,6 +90,104 @@ theorem naming_style_keeps_initialisms :
       (handle env [joinEq [110, 97, 109, 105, 110, 103, 95, 115, 116, 121, 108, 101] (some s)]).map
         (fun c => (c.style, c.effInit)) = some (s, true) := by
   decide
+
+/-! ### the command-line path `-g go:<a,b,c>` (args.Arguments.Targets → plugin.Pack → HandleOptions) -/
+
+/-- the option appended by checkOptions -/
+def slimOpt : Bytes := cmdEnv.templateName ++ 61 :: env.slimName
+
+/-- what checkOptions appends to the list `as` -/
+def appended (as : List Bytes) : List Bytes :=
+  if feat (probe env as) cmdEnv.iNested && !(as.any fun a => optName a == cmdEnv.templateName) then [slimOpt] else []
+
+/-- **the command line is transparent**: for any non-empty list of comma-free option texts, `-g go:` followed by
+their comma-join hands the backend's HandleOptions a list that acts exactly like the list written (a bare name
+arrives as `name=`, a value keeps everything after its first `=`), followed by `template=slim` exactly when the
+list switches nested structs on and names no template.  The backend's CodeUtils starts from the naming-style
+flags the scratch run of checkOptions left in the process-wide style objects. -/
+theorem cmdline_transparent (as : List Bytes) (hne : as ≠ []) (hc : ∀ a ∈ as, (44 : Nat) ∉ a) :
+    cmdline env cmdEnv (joinComma as) =
+      handleFrom env { init env with styleFlags := (probe env as).styleFlags } (as ++ appended as) := by
+  have hs := splitComma_joinComma as hne hc
+  have hp : pack (parseOpts (joinComma as)) = as.map repack := by rw [pack_parseOpts, hs]
+  have hn : (parseOpts (joinComma as)).any (fun p => p.1 == cmdEnv.templateName)
+      = as.any (fun a => optName a == cmdEnv.templateName) := by rw [parseOpts_names, hs]
+  unfold cmdline
+  simp only [hp, probe_repack]
+  unfold checkOptions appended
+  simp only [hp, probe_repack, hn]
+  have key : ∀ (c : Cfg) (bs : List Bytes), handleFrom env c (as.map repack ++ bs) = handleFrom env c (as ++ bs) := by
+    intro c bs
+    simp only [handleFrom, run_append, run_repack]
+  by_cases h1 : feat (probe env as) cmdEnv.iNested = true
+  · by_cases h2 : (as.any fun a => optName a == cmdEnv.templateName) = true
+    · simp only [h1, h2, if_true, Bool.not_true, Bool.and_false, Bool.false_eq_true, if_false, List.append_nil, hp]
+      exact handleFrom_repack env _ as
+    · have h2' : (as.any fun a => optName a == cmdEnv.templateName) = false := by simpa using h2
+      simp only [h1, h2', if_true, Bool.false_eq_true, if_false, Bool.not_false, Bool.and_true]
+      have : pack (parseOpts (joinComma as) ++ [(cmdEnv.templateName, env.slimName)]) = as.map repack ++ [slimOpt] := by
+        simp [pack, slimOpt] at hp ⊢
+        exact hp
+      rw [this]
+      exact key _ _
+  · have h1' : feat (probe env as) cmdEnv.iNested = false := by simpa using h1
+    simp only [h1', Bool.false_eq_true, if_false, Bool.false_and, List.append_nil, hp]
+    exact handleFrom_repack env _ as
+
+/-- nothing is appended unless the list itself switches nested structs on (`enable_nested_struct=false` included) -/
+theorem cmdline_adds_nothing_unless_nested (as : List Bytes) (h : feat (probe env as) cmdEnv.iNested = false) :
+    appended as = [] := by simp [appended, h]
+
+/-- a value keeps everything after its first `=`: `use_package=a/b=c/d` reaches the backend as written -/
+theorem cmdline_value_keeps_equals (n v : Bytes) (hn : (61 : Nat) ∉ n) (hn' : (44 : Nat) ∉ n) (hv : (44 : Nat) ∉ v) :
+    pack (parseOpts (n ++ 61 :: v)) = [n ++ 61 :: v] := by
+  have hc : (44 : Nat) ∉ n ++ 61 :: v := by
+    intro hm
+    rcases List.mem_append.mp hm with e | e
+    · exact hn' e
+    · rcases List.mem_cons.mp e with e | e
+      · cases e
+      · exact hv e
+  have := splitEq_joinEq n (some v) hn
+  simp only [joinEq] at this
+  simp [pack_parseOpts, splitComma_noComma _ hc, repack, this]
+
+/-- **nested structs force the slim template** (documented implication): when the list switches nested structs on
+and names no template, the accepted configuration has the slim template and no deep-equal. -/
+theorem nested_forces_slim (as : List Bytes) (hne : as ≠ []) (hc : ∀ a ∈ as, (44 : Nat) ∉ a)
+    (hnest : feat (probe env as) cmdEnv.iNested = true)
+    (hnt : (as.any fun a => optName a == cmdEnv.templateName) = false)
+    (c : Cfg) (h : cmdline env cmdEnv (joinComma as) = some c) :
+    c.template = env.slimName ∧ feat c env.iDeepEqual = false := by
+  rw [cmdline_transparent as hne hc] at h
+  have happ : appended as = [slimOpt] := by simp [appended, hnest, hnt]
+  rw [happ] at h
+  unfold handleFrom at h
+  rw [run_append] at h
+  cases hr : run env { init env with styleFlags := (probe env as).styleFlags } as with
+  | none => simp [hr] at h
+  | some c1 =>
+    have hstep : run env c1 [slimOpt] = some { c1 with template := env.slimName } := by
+      have hres : resolve env slimOpt = some (.template, env.slimName) := by decide
+      have hmem : env.slimName ∈ env.templates := by decide
+      simp [run, step, hres, act, hmem]
+    simp only [hr, Option.bind_some, hstep] at h
+    have hlen : c1.features.length = env.defaults.length :=
+      (run_feat env as _ c1 hr env.iDeepEqual (by show env.iDeepEqual < env.defaults.length; decide)).1
+    split at h
+    · simp at h
+    · simp only [Option.some.injEq] at h
+      subst h
+      constructor
+      · simp [slimRule]
+      · simp only [slimRule, if_true, feat]
+        rw [getD_setAt _ _ _ _ (by rw [hlen]; decide)]
+        simp
+
+/- non-vacuity of the command-line theorems: a list that switches nested structs on and names no template -/
+example : feat (probe env [VL.ofAscii "enable_nested_struct", VL.ofAscii "gen_deep_equal"]) cmdEnv.iNested = true ∧
+    ([VL.ofAscii "enable_nested_struct", VL.ofAscii "gen_deep_equal"].any fun a => optName a == cmdEnv.templateName) = false ∧
+    (cmdline env cmdEnv (joinComma [VL.ofAscii "enable_nested_struct", VL.ofAscii "gen_deep_equal"])).isSome = true := by decide
 
 /- non-vacuity: a concrete accepted list, its outcome is what `sets_exactly_own` says -/
 example : (handle env [VL.ofAscii "gen_setter", VL.ofAscii "code_ref_slim=false", VL.ofAscii "code_ref"]).isSome = true := by decide
